@@ -295,4 +295,37 @@ __CPROVER_ensures(self->m_storage.index != 4 ==> NV_SAME_P(NV_EQ_I, self->m_stor
 __CPROVER_ensures(self->m_storage.index != 5 ==> NV_SAME_P(NV_EQ_F, self->m_storage.a5)) \
 __CPROVER_ensures(self->m_storage.index != 6 ==> self->m_storage.a6.id == NV_OLD(self->m_storage.a6.id))
 
+/* ------------------------------------------------------------------ parameter_t::value<T>() / value_pair<T>()
+ * "an accepted assignment is read back as assigned (converted to the requested kind)"; "type-mismatched reads
+ * throw" (scalar read of a pair / enum / string / empty parameter and vice versa).  Nothing is modified.
+ * Reading a REAL parameter as an integer converts double -> int64: defined only if the stored value is representable;
+ * that is the reader's own cast, required here (listed under assumptions: the domain of a real parameter may exceed it). */
+#define NV_READ_REQ(PRE) __CPROVER_requires(!nv_thrown && __CPROVER_is_fresh(self, sizeof(*self)) && NV_ST_WF(self->m_storage) && (PRE)) \
+__CPROVER_assigns(nv_thrown)
+#define NV_RET __CPROVER_return_value
+#define NV_CONTRACT_value_i64 \
+NV_READ_REQ(self->m_storage.index != 3 || NV_F2I_DEFINED(self->m_storage.a3.m_value)) \
+__CPROVER_ensures(self->m_storage.index == 2 ==> (!nv_thrown && NV_RET == self->m_storage.a2.m_value)) \
+__CPROVER_ensures(self->m_storage.index == 3 ==> (!nv_thrown && NV_RET == (int64_t)self->m_storage.a3.m_value)) \
+__CPROVER_ensures((self->m_storage.index != 2 && self->m_storage.index != 3) ==> nv_thrown)
+#define NV_CONTRACT_value_f64 \
+NV_READ_REQ(1) \
+__CPROVER_ensures(self->m_storage.index == 2 ==> (!nv_thrown && NV_RET == (double)self->m_storage.a2.m_value)) \
+__CPROVER_ensures(self->m_storage.index == 3 ==> (!nv_thrown && NV_SAME(NV_RET, self->m_storage.a3.m_value))) \
+__CPROVER_ensures((self->m_storage.index != 2 && self->m_storage.index != 3) ==> nv_thrown)
+#define NV_CONTRACT_pair_i64 \
+NV_READ_REQ(self->m_storage.index != 5 || (NV_F2I_DEFINED(self->m_storage.a5.m_value1) && NV_F2I_DEFINED(self->m_storage.a5.m_value2))) \
+__CPROVER_ensures(self->m_storage.index == 4 ==> (!nv_thrown && NV_RET._0 == self->m_storage.a4.m_value1 && NV_RET._1 == self->m_storage.a4.m_value2)) \
+__CPROVER_ensures(self->m_storage.index == 5 ==> (!nv_thrown && NV_RET._0 == (int64_t)self->m_storage.a5.m_value1 && NV_RET._1 == (int64_t)self->m_storage.a5.m_value2)) \
+__CPROVER_ensures((self->m_storage.index != 4 && self->m_storage.index != 5) ==> nv_thrown)
+#define NV_CONTRACT_pair_f64 \
+NV_READ_REQ(1) \
+__CPROVER_ensures(self->m_storage.index == 4 ==> (!nv_thrown && NV_RET._0 == (double)self->m_storage.a4.m_value1 && NV_RET._1 == (double)self->m_storage.a4.m_value2)) \
+__CPROVER_ensures(self->m_storage.index == 5 ==> (!nv_thrown && NV_SAME(NV_RET._0, self->m_storage.a5.m_value1) && NV_SAME(NV_RET._1, self->m_storage.a5.m_value2))) \
+__CPROVER_ensures((self->m_storage.index != 4 && self->m_storage.index != 5) ==> nv_thrown)
+#define NV_CONTRACT_value_str \
+NV_READ_REQ(1) \
+__CPROVER_ensures(self->m_storage.index == 6 ==> (!nv_thrown && NV_RET.id == self->m_storage.a6.id)) \
+__CPROVER_ensures(self->m_storage.index != 6 ==> nv_thrown)
+
 #endif
